@@ -528,7 +528,11 @@ func execC11(ops []Op) []string {
 			}
 			out = append(out, fmt.Sprintf("C11M transp %s => %s", p.Name, v))
 		case "block":
-			out = append(out, execC11Block(a[1], a[2], a[3], a[4]))
+			where := "main"
+			if len(a) > 5 {
+				where = a[5]
+			}
+			out = append(out, execC11Block(a[1], a[2], a[3], a[4], where))
 		default:
 			panic("bad op " + a[0])
 		}
@@ -538,13 +542,27 @@ func execC11(ops []Op) []string {
 
 // ---------- blocking channel operations with a second goroutine ----------
 
-func execC11Block(kind, ctxS, readyS, cancelS string) string {
+// where: "main" = the operation runs on the state itself; "thread-root"/"thread-own" = in a thread made by
+// LState.NewThread and driven by Resume, cancelled through the root context / through the cancel function NewThread
+// returned; "lua-co" = inside coroutine.wrap, root cancelled.  The request line is the same in every variant: what
+// the property promises does not depend on which state of the family is blocked or which of its contexts is cancelled.
+func execC11Block(kind, ctxS, readyS, cancelS, where string) string {
 	L := lua.NewState()
 	var cancel context.CancelFunc = func() {}
 	if ctxS == "1" {
 		var ctx context.Context
 		ctx, cancel = context.WithCancel(context.Background())
 		L.SetContext(ctx)
+	}
+	var th *lua.LState
+	if strings.HasPrefix(where, "thread") {
+		var own context.CancelFunc
+		th, own = L.NewThread()
+		if where == "thread-own" && own != nil {
+			rootCancel := cancel
+			defer rootCancel()
+			cancel = own
+		}
 	}
 	ch := make(chan lua.LValue) // unbuffered: the operation blocks until the peer arrives
 	L.SetGlobal("ch", lua.LChannel(ch))
@@ -562,7 +580,20 @@ func execC11Block(kind, ctxS, readyS, cancelS string) string {
 				done <- fmt.Errorf("gopanic %v", r)
 			}
 		}()
-		done <- L.DoString(src)
+		switch {
+		case th != nil:
+			fn, err := L.LoadString(src)
+			if err != nil {
+				done <- err
+				return
+			}
+			_, err, _ = L.Resume(th, fn)
+			done <- err
+		case where == "lua-co":
+			done <- L.DoString("return coroutine.wrap(function() " + src + " end)()")
+		default:
+			done <- L.DoString(src)
+		}
 	}()
 	// second goroutine: the peer (if ready) or the canceller
 	time.Sleep(15 * time.Millisecond) // let the script reach the channel operation (the outcome does not depend on it)
@@ -908,6 +939,11 @@ func runC11M(run *Run) {
 						continue
 					}
 					bops = append(bops, Op{Args: []string{"block", k, c, rd, x}})
+					if c == "1" {
+						for _, wh := range []string{"thread-root", "thread-own", "lua-co"} {
+							bops = append(bops, Op{Args: []string{"block", k, c, rd, x, wh}})
+						}
+					}
 				}
 			}
 		}
